@@ -299,7 +299,8 @@ ReqsC13x == << MkReq("https", "ab.ba", "/ab-x", "script", "x.com"), MkReq("https
 \* x every option, restricted to what the parser accepts and the properties cover.  Compositions no pool has.
 RandBodies == {"/ab", "ab", "/ab*ba", "*", "/bab", "-x", "/ab-", "/ab_", "ab.ba^"}
 \* (TLC evaluates constant definitions at start-up: the space is only built for the universe that uses it)
-RandSpace == IF U # "rand" THEN {} ELSE
+IsRand == U \in {"rand", "randr"}      \* "randr": the same random lists, each also executed on an engine reloaded from its image (C08)
+RandSpace == IF ~IsRand THEN {} ELSE
   { r \in { [R0 EXCEPT !.body = B(b), !.left = l, !.exc = e, !.pos = p, !.neg = n, !.party = pa, !.dom = d[1], !.ndom = d[2],
                       !.important = im, !.tag = tg, !.mkind = m[1], !.mval = m[2]] :
               b \in RandBodies, l \in {"none", "dpipe"}, e \in BOOLEAN,
@@ -383,10 +384,10 @@ ReqsC15 == SetToSeqD(
 --------------------------------------------------------------------------
 Pool == CASE U = "c01" -> PoolC01 [] U = "c01d" -> PoolC01d [] U = "c07" -> PoolC07 [] U = "c04b" -> PoolC04b [] U = "c05" -> PoolC05 [] U = "c08" -> PoolC08 [] U = "c13" -> PoolC13 [] U = "c13x" -> PoolC13x [] U = "c14" -> PoolC14
           [] U = "c15" -> PoolC15 [] OTHER -> <<>>
-Reqs == CASE U = "c03" -> ReqsC03 [] U = "c01" -> ReqsC01 [] U = "c01d" -> ReqsC01d [] U = "c07" -> ReqsC07 [] U = "c04b" -> ReqsC04b [] U = "c05" -> ReqsC05 [] U = "c08" -> ReqsC08 [] U = "c13" -> ReqsC13 [] U = "c13x" -> ReqsC13x [] U = "rand" -> ReqsRand
+Reqs == CASE U = "c03" -> ReqsC03 [] U = "c01" -> ReqsC01 [] U = "c01d" -> ReqsC01d [] U = "c07" -> ReqsC07 [] U = "c04b" -> ReqsC04b [] U = "c05" -> ReqsC05 [] U = "c08" -> ReqsC08 [] U = "c13" -> ReqsC13 [] U = "c13x" -> ReqsC13x [] IsRand -> ReqsRand
           [] U = "c14" -> ReqsC14 [] U = "c15" -> ReqsC15
-Res == IF U \in {"rand", "c13", "c13x", "c01", "c04b", "c05", "c08"} THEN ResC13 ELSE {}
-Tags == IF U \in {"rand", "c01", "c01d", "c07", "c15", "c04b", "c05", "c08"} THEN {"t1", "t2"} ELSE {}
+Res == IF U \in {"rand", "randr", "c13", "c13x", "c01", "c04b", "c05", "c08"} THEN ResC13 ELSE {}
+Tags == IF U \in {"rand", "randr", "c01", "c01d", "c07", "c15", "c04b", "c05", "c08"} THEN {"t1", "t2"} ELSE {}
 
 \* increasing index sequences of length <= K over 1..n
 RECURSIVE IncSeqs(_, _, _)
@@ -398,14 +399,14 @@ IncSeqs(lo, n, k) ==
 \* one "seed" state per partition, whose successors (the cases) are generated and
 \* checked by the workers in parallel.
 PartsC03 == SetToSeqD({ <<s, pa>> : s \in ShapesC03, pa \in {"any", "3p", "1p"} })
-NParts == IF U = "c03" THEN Len(PartsC03) ELSE IF U = "rand" THEN K ELSE Len(Pool) + 1
+NParts == IF U = "c03" THEN Len(PartsC03) ELSE IF IsRand THEN K ELSE Len(Pool) + 1
 
 Base == IF U = "c13x" THEN BaseC13x ELSE <<>>
 ListsOf(p) ==
   IF U = "c03"
   THEN { << [PartsC03[p][1] EXCEPT !.pos = PosOf(S), !.neg = NegOf(S), !.party = PartsC03[p][2],
                                    !.dom = d[1], !.ndom = d[2]] >> : S \in AtomSets, d \in DomVariants }
-  ELSE IF U = "rand" THEN {SetToSeqD(RandomSubset(RandomElement(3..9), RandSpace))}
+  ELSE IF IsRand THEN {SetToSeqD(RandomSubset(RandomElement(3..9), RandSpace))}
   ELSE IF p = Len(Pool) + 1 THEN {Base}
   ELSE {Base \o [j \in 1..Len(s) |-> Pool[s[j]]] : s \in {<<p>> \o t : t \in IncSeqs(p + 1, Len(Pool), K - 1)}}
 
@@ -454,7 +455,7 @@ CaseRecord(f) ==
       base0 == [k |-> "net", u |-> U, mono |-> (U \in {"c01", "c01d", "c05", "rand"}), rules |-> [i \in DOMAIN L |-> RuleText(L[i])], tags |-> T,
                v |-> iv, csp |-> ic,
                \* check_network_request_subset under the three other flag combinations (universes c01 and c07)
-               subset |-> IF U \in {"c01", "c07"}
+               subset |-> IF U \in {"c01", "c07", "rand"}
                           THEN [q \in DOMAIN Reqs |->
                                   [fl \in {<<TRUE, FALSE>>, <<FALSE, TRUE>>, <<TRUE, TRUE>>} |->
                                      UNION {VerdictsSubset(L, hv, T, Res, Reqs[q], fl[1], fl[2]) :
@@ -467,7 +468,7 @@ CaseRecord(f) ==
       mh == [q \in DOMAIN Reqs |-> [i \in DOMAIN L |->
                IF Supported(Reqs[q]) THEN f[q][i].ideal ELSE {TRUE, FALSE}]]
       hd == {p \in (DOMAIN Reqs) \X (DOMAIN L) : f[p[1]][p[2]].impl \notin mh[p[1]][p[2]]}
-      base == IF U = "c08"
+      base == IF U \in {"c08", "randr"}
               THEN base0 @@ [reload |-> TRUE,
                              wire |-> IF Len(keepIdx) = Len(L) THEN <<>>
                                       ELSE << [names |-> {"wireDropsRemoveparam"}, mv |-> mvw] >>]
